@@ -347,3 +347,15 @@ pub fn run_main(
 }
 
 pub mod e2e;
+
+/// 1 on an idle machine, up to 8 when the 1-minute load average is many times the number of cores: watchdogs
+/// that decide "blocked" multiply their patience by this, so that a busy machine does not turn a slow
+/// run into a false `blocked` (a really deadlocked job stays blocked however long one waits).
+pub fn load_factor() -> u32 {
+    let load = std::fs::read_to_string("/proc/loadavg")
+        .ok()
+        .and_then(|s| s.split_whitespace().next().and_then(|x| x.parse::<f64>().ok()))
+        .unwrap_or(0.0);
+    let cores = std::thread::available_parallelism().map(|n| n.get()).unwrap_or(16) as f64;
+    (1.0 + load / cores).min(8.0) as u32
+}
